@@ -225,7 +225,7 @@ theorem ws_init (st : St) : WS (startEvents st) (waitInit st) := by
   · intro p hp e he
     simp only [waitInit, List.mem_map] at hp
     obtain ⟨t, _, rfl⟩ := hp
-    simp only [prologue, List.mem_append, List.mem_flatMap, List.mem_map, List.mem_singleton] at he
+    simp only [prologue_eq, List.mem_append, List.mem_flatMap, List.mem_map, List.mem_singleton] at he
     rcases he with (⟨m, _, p, _, rfl⟩ | ⟨m, _, rfl⟩) | rfl <;> rfl
 
 theorem mainTodo_drain : ∀ (n : Nat) (w : Wait), w.mainTodo.length = n →
